@@ -64,4 +64,17 @@ PROPS = {
         "trusted_base": [],
         "not_covered": ["supernode tree, post-order, merge strategies, clique tree validity (IndexSet/HashMap/sort_by closures, sdp feature)"],
     },
+    "C16": {
+        "units": [],
+        "scope": "CSC operations against an abstract (row,col)->value view; check_format <=> canonical",
+        "assumptions": [],
+        "trusted_base": [],
+        "kani": [
+            {"harness": "check_format_iff_wf_2x2_nnz2", "quick": True, "complete": False,
+             "bound": "m=n=2, 2 stored entries, colptr entries <= 3, arbitrary rowval contents, unwind 5",
+             "what": "check_format().is_ok() == wf (canonical encoding incl. colptr[0]==0, sorted strictly increasing in-range rows)",
+             "covers": ["check_format", "check_dimensions"], "timeout": 600},
+        ],
+        "not_covered": [],
+    },
 }
